@@ -2,11 +2,13 @@
 emitted at a site reachable from HedValidator.validate in the phase the two-phase design needs,
 with call-site arguments that bind to the registered message function, and with no issue list
 dropped on the way back."""
+import ast
+
 from sa import wiring
 from sa.callgraph import STRONG_KINDS, PRECISE
 from sa.dataflow import UNKNOWN
 from sa.issues import check_no_dropped_issues
-from sa.model import loc
+from sa.model import call_name, loc, walk_no_nested
 from sa.registry import get_registry
 
 LEVEL_TEXT = ("Static structural proof of necessary conditions, not of the property: for each of the 45 internal "
@@ -75,6 +77,49 @@ def run(ctx):
     scope = [f for f in closure if f.module.name.startswith("hed.validator")]
     ctx.floor("R1.3", "validator functions in closure", len(scope), 45)
     check_no_dropped_issues(ctx, "R1.3", scope)
+    ctx.rule("R1.7", "every setting a validator's constructor stores on the object is read somewhere (no rule variant silently switched off)")
+    ext_loads = set()          # attribute reads on a receiver other than `self` (any module), and getattr/hasattr names
+    for m_ in prog.modules.values():
+        for x in ast.walk(m_.tree):
+            if isinstance(x, ast.Attribute) and isinstance(x.ctx, ast.Load) and not (isinstance(x.value, ast.Name) and x.value.id == "self"):
+                ext_loads.add(x.attr)
+            elif isinstance(x, ast.Call) and call_name(x) in ("getattr", "hasattr") and len(x.args) >= 2 and isinstance(x.args[1], ast.Constant):
+                ext_loads.add(x.args[1].value)
+
+    def self_loads(cls):
+        out = set()
+        for k in set(cls.mro()) | set(cls.all_subclasses()):
+            for m2 in k.all_methods:
+                for x in ast.walk(m2.node):
+                    if isinstance(x, ast.Attribute) and isinstance(x.ctx, ast.Load) and isinstance(x.value, ast.Name) and x.value.id == "self":
+                        out.add(x.attr)
+        return out
+    # frozen exception, confirmed by reading: the flag was consumed by a code path that is commented out; value classes are
+    # validated through CharRexValidator for every schema generation (the character validator proper keeps its own flag)
+    DEAD_OK = {("UnitValueValidator", "_validate_characters"): "retired code path; value-class checks do not depend on the schema generation"}
+    n_fields = 0
+    for c_ in prog.classes.values():
+        if not c_.module.name.startswith("hed.validator"):
+            continue
+        init = c_.methods.get("__init__")
+        if init is None:
+            continue
+        loads = self_loads(c_) | ext_loads
+        for st in walk_no_nested(init.node):
+            if isinstance(st, ast.Assign):
+                for t in st.targets:
+                    if isinstance(t, ast.Attribute) and isinstance(t.value, ast.Name) and t.value.id == "self":
+                        n_fields += 1
+                        ctx.saw(init)
+                        if (c_.name, t.attr) in DEAD_OK:
+                            ctx.ok("R1.7", "%s.%s unread on purpose — %s" % (c_.name, t.attr, DEAD_OK[(c_.name, t.attr)]), loc(init, st))
+                            continue
+                        ctx.check(t.attr in loads, "R1.7", init.qualname, st, loc(init, st),
+                                  "`self.%s` is stored by the constructor and never read anywhere in the package: the behaviour it "
+                                  "selects (e.g. the pre-8.3 vs 8.3 character rules) is the same for every configuration, so one "
+                                  "schema generation is validated by the other's rules" % t.attr,
+                                  desc="%s.%s is read somewhere" % (c_.name, t.attr))
+    ctx.floor("R1.7", "fields stored by validator constructors", n_fields, 12)
     ctx.rule("R1.6", "no first/last-element access on a possibly empty list in the validators (validation reports, it does not raise)")
     from sa.firstelem import check_first_elem
     nfe = check_first_elem(ctx, "R1.6", [f for f in prog.functions.values() if f.module.name.startswith("hed.validator")],
